@@ -155,13 +155,13 @@ Qed.
 Lemma release_cases s t k :
   (rel_branch s t k = BUnknownTag /\ lookup (sw_tags s) t = None) \/
   (exists r, lookup (sw_tags s) t = Some r /\ get s t = r /\
-     ((rel_branch s t k = BLowest /\ t_low r = k) \/
+     ((rel_branch s t k = BLowest /\ t_low r = k /\ k < t_next r) \/
       (rel_branch s t k = BPending /\ t_low r < k < t_next r) \/
-      (rel_branch s t k = BBadSeq /\ t_low r <> k /\ ~ (t_low r < k < t_next r)))).
+      (rel_branch s t k = BBadSeq /\ ~ (t_low r <= k < t_next r)))).
 Proof.
   unfold rel_branch, get. destruct (lookup (sw_tags s) t) as [r|] eqn:E; [right|left; auto].
   exists r. split; [reflexivity|]. split; [reflexivity|].
-  destruct (t_low r =? k) eqn:E1; [left; split; [reflexivity|lia]|].
+  destruct ((t_low r =? k) && (k <? t_next r)) eqn:E1; [left; split; [reflexivity|lia]|].
   destruct ((t_low r <? k) && (k <? t_next r)) eqn:E2; [right; left|right; right];
     (split; [reflexivity|lia]).
 Qed.
@@ -171,7 +171,7 @@ Proof.
   intros Hb. destruct o as [t b|t k]; cbn [step].
   - rewrite acquire_eq by exact Hb. destruct (sw_count s =? 0); cbn [snd]; [exact Hb|].
     apply basic_upd; [exact Hb|]. cbn [t_next]. pose proof (basic_next_nonneg s t Hb). lia.
-  - unfold sw_release.
+  - unfold sw_release, sw_release_with.
     destruct (release_cases s t k) as [[-> _]|(r & El & Hg & [[-> _]|[[-> _]|[-> _]]])];
       cbn [snd]; try exact Hb.
     + destruct (drain (t_low (get s t) + 1) (t_pend (get s t))) as [low' q'] eqn:Ed. cbn [snd].
@@ -193,7 +193,7 @@ Proof.
   unfold bal. intros Hb Hc. destruct o as [t b|t k]; cbn [step].
   - rewrite acquire_eq by exact Hb. destruct (sw_count s =? 0); cbn [snd]; [exact Hc|].
     cbn [sw_count sw_tags]. rewrite sum_out_upd, lookup_contrib. cbn [t_next t_low]. lia.
-  - unfold sw_release.
+  - unfold sw_release, sw_release_with.
     destruct (release_cases s t k) as [[-> _]|(r & El & Hg & [[-> _]|[[-> _]|[-> _]]])];
       cbn [snd]; try exact Hc.
     + destruct (drain (t_low (get s t) + 1) (t_pend (get s t))) as [low' q'] eqn:Ed. cbn [snd].
@@ -222,7 +222,7 @@ Lemma step_rejected_unchanged s o : rejected (fst (step s o)) = true -> snd (ste
 Proof.
   destruct o as [t b|t k]; cbn [step].
   - unfold sw_acquire. destruct (sw_count s =? 0); [reflexivity|]. cbn. discriminate.
-  - unfold sw_release. destruct (rel_branch s t k); try reflexivity.
+  - unfold sw_release, sw_release_with. destruct (rel_branch s t k); try reflexivity.
     + destruct (drain _ _). cbn. discriminate.
     + cbn. discriminate.
 Qed.
@@ -385,7 +385,7 @@ Proof.
         split; [exact H1|]. split; [exact H2|]. split; [exact H3|]. split; [|exact H5].
         intros k'. rewrite in_cons_other by lia. apply H4.
   - (* release *)
-    unfold sw_release in *.
+    unfold sw_release, sw_release_with in *.
     destruct (release_cases s t k) as [[Hbr _]|(r & El & Hg & [[Hbr Hk]|[[Hbr Hk]|[Hbr _]]])];
       rewrite Hbr in *; cbn [fst snd gstep] in *; try exact Ht.
     + (* lowest *)
@@ -528,9 +528,9 @@ Lemma release_lowest_run s g t : Inv s g ->
     (forall t', t' <> t -> get s' t' = get s t').
 Proof.
   intros [Hb Ht] Hlt. destruct (Ht t) as (H1 & H2 & H3 & H4 & H5).
-  unfold sw_release.
+  unfold sw_release, sw_release_with.
   destruct (release_cases s t (t_low (get s t)))
-    as [[_ Hn]|(r & El & Hg & [[Hbr Hk]|[[Hbr Hk]|[Hbr [Hk _]]]])].
+    as [[_ Hn]|(r & El & Hg & [[Hbr Hk]|[[Hbr Hk]|[Hbr Hk]]])].
   - destruct Hb as [_ Hb]. unfold get in Hlt. rewrite Hn in Hlt. cbn in Hlt. lia.
   - rewrite Hbr.
     assert (Hlo : forall x, In x (t_pend (get s t)) -> t_low (get s t) + 1 <= x)
@@ -551,8 +551,8 @@ Proof.
       - intros Hx. split; [apply D2; now right|now apply D4].
       - intros [Hx Hm]. apply D2 in Hx. destruct Hx as [Hx|Hx]; [lia|exact Hx]. }
     intros t' Hne. rewrite get_upd. destruct (t' =? t) eqn:E; [lia|reflexivity].
-  - rewrite Hg in Hk. lia.
-  - rewrite Hg in Hk. lia.
+  - rewrite Hg in *. lia.
+  - rewrite Hg in *. lia.
 Qed.
 
 (** An out-of-order release (any state). *)
@@ -564,8 +564,8 @@ Lemma release_pending_frees_nothing s t k :
     t_pend (get s' t) = sort_desc (t_pend (get s t) ++ [k]) /\
     (forall t', t' <> t -> get s' t' = get s t').
 Proof.
-  intros Hk. unfold sw_release.
-  destruct (release_cases s t k) as [[_ Hn]|(r & El & Hg & [[Hbr Hk']|[[Hbr Hk']|[Hbr [_ Hk']]]])].
+  intros Hk. unfold sw_release, sw_release_with.
+  destruct (release_cases s t k) as [[_ Hn]|(r & El & Hg & [[Hbr Hk']|[[Hbr Hk']|[Hbr Hk']]])].
   - unfold get in Hk. rewrite Hn in Hk. cbn in Hk. lia.
   - rewrite Hg in Hk. lia.
   - rewrite Hbr. eexists. split; [reflexivity|]. cbn [sw_count]. split; [reflexivity|].
@@ -577,28 +577,47 @@ Qed.
 (** Releases that are rejected (any state). *)
 Lemma release_unknown_tag s t k : known s t = false -> sw_release s t k = (RValErr, s).
 Proof.
-  unfold known, sw_release, rel_branch. destruct (lookup (sw_tags s) t); [discriminate|reflexivity].
+  unfold known, sw_release, sw_release_with, rel_branch.
+  destruct (lookup (sw_tags s) t); [discriminate|reflexivity].
 Qed.
 
 Lemma release_outside_window s t k :
-  t_low (get s t) <> k -> ~ (t_low (get s t) < k < t_next (get s t)) ->
-  sw_release s t k = (RValErr, s).
+  ~ (t_low (get s t) <= k < t_next (get s t)) -> sw_release s t k = (RValErr, s).
 Proof.
-  intros H1 H2. unfold sw_release.
+  intros H. unfold sw_release, sw_release_with.
   destruct (release_cases s t k) as [[-> _]|(r & El & Hg & [[Hbr Hk]|[[Hbr Hk]|[-> _]]])];
     try reflexivity; rewrite Hg in *; lia.
 Qed.
 
-(** The edge the code does not guard: lowest = next = k. *)
-Lemma release_edge_accepted s t k : known s t = true ->
-  t_low (get s t) = k -> fst (sw_release s t k) = ROk.
+(** The lowest outstanding token is always accepted (any state). *)
+Lemma release_lowest_accepted s t :
+  t_low (get s t) < t_next (get s t) -> fst (sw_release s t (t_low (get s t))) = ROk.
 Proof.
-  intros Hkn Hk. unfold sw_release.
-  destruct (release_cases s t k) as [[_ Hn]|(r & El & Hg & [[-> _]|[[_ Hk']|[_ [Hk' _]]]])].
-  - unfold known in Hkn. now rewrite Hn in Hkn.
+  intros Hlt. unfold sw_release, sw_release_with.
+  destruct (release_cases s t (t_low (get s t)))
+    as [[_ Hn]|(r & El & Hg & [[-> _]|[[_ Hk']|[_ Hk']]])].
+  - unfold get in Hlt. rewrite Hn in Hlt. cbn in Hlt. lia.
   - now destruct (drain _ _).
-  - rewrite Hg in Hk. lia.
-  - rewrite Hg in Hk. lia.
+  - rewrite Hg in *. lia.
+  - rewrite Hg in *. lia.
+Qed.
+
+(** A token that was never granted is rejected (invariant states). *)
+Lemma release_never_granted_rejected s g t k : Inv s g ->
+  ~ In (t, k) (g_granted g) -> sw_release s t k = (RValErr, s).
+Proof.
+  intros [_ Ht] Hn. destruct (Ht t) as (H1 & _ & _ & H4 & _).
+  apply release_outside_window. intros Hin. apply Hn. apply H4. lia.
+Qed.
+
+(** The code before the repair (rel_branch_old): the edge lowest = next = k
+    was accepted. *)
+Lemma release_old_edge_accepted s t k : known s t = true ->
+  t_low (get s t) = k -> fst (sw_release_old s t k) = ROk.
+Proof.
+  unfold known, sw_release_old, sw_release_with, rel_branch_old, get.
+  destruct (lookup (sw_tags s) t) as [r|]; [|discriminate]. intros _ ->.
+  rewrite Z.eqb_refl. now destruct (drain _ _).
 Qed.
 
 (** * Tokens are handed out 0,1,2,... per tag (all histories) *)
@@ -631,7 +650,7 @@ Proof.
            cbn [t_next] in IH1, IH2. cbn [length zseq]. split; [now rewrite <- IH1|lia].
         -- destruct (t =? t') eqn:E'; [lia|]. split; assumption.
     + assert (Hn : t_next (get s' t) = t_next (get s t)).
-      { unfold sw_release in Es.
+      { unfold sw_release, sw_release_with in Es.
         destruct (release_cases s t' k) as [[Hbr _]|(r & El & Hg & [[Hbr _]|[[Hbr _]|[Hbr _]]])];
           rewrite Hbr in Es.
         - now injection Es as <- <-.
